@@ -863,8 +863,8 @@ func metadataNilBypass(fn *ssa.Function, sortCall *ssa.Call) bool {
 			if prm, ok := ci.X.(*ssa.Parameter); ok && an.NamedIs(prm.Type(), load.ModPath+"/protocol/metadata", "Response") {
 				// sort must lie on the non-nil edge
 				nonNilSucc := idom.Succs[0]
-				if ci.Op == token.EQL {
-					nonNilSucc = idom.Succs[1]
+				if e := ci.Edge(token.NEQ); e >= 0 {
+					nonNilSucc = idom.Succs[e]
 				}
 				return nonNilSucc == b || nonNilSucc.Dominates(sortCall.Block())
 			}
